@@ -7,6 +7,7 @@ Oracle: the statement's laws evaluated at every node of the program on the real 
 exact integer arithmetic (plain (signal, noise) array pairs), plus runtime monitors (operands unchanged bit for
 bit, write-protected buffers, no shared memory) and the domain-transform clause.
 """
+import math
 import warnings
 
 import numpy as np
@@ -215,8 +216,8 @@ def modelable(t):
 def _gi(v):
     """exact Gaussian integer when the sample is one (always, before the first domain transform), else floats"""
     z = complex(v)
-    if z.real != z.real or z.imag != z.imag or abs(z.real) == float("inf") or abs(z.imag) == float("inf"):
-        raise ArithmeticError(f"non-finite sample {v!r}")
+    if not (math.isfinite(z.real) and math.isfinite(z.imag)):
+        return (float(z.real), float(z.imag))     # NaN / inf: kept as floats (never equal to anything, see `differs`)
     re, im = int(z.real), int(z.imag)
     if re != z.real or im != z.imag:
         return (z.real, z.imag)
@@ -236,9 +237,21 @@ def differs(a, b):
         return True
     if _exact(a) and _exact(b):
         return a != b
-    scale = max([1.0] + [abs(c) for rows in (a, b) for r in rows for z in r for c in z])
+    comps = [c for rows in (a, b) for r in rows for z in r for c in z]
+    if not all(math.isfinite(c) for c in comps):
+        return True          # a NaN / inf sample is different from every expected value (also from another NaN)
+    scale = max([1.0] + [abs(c) for c in comps])
     tol = 1e-9 * scale
-    return any(abs(p[0] - q[0]) > tol or abs(p[1] - q[1]) > tol for x, y in zip(a, b) for p, q in zip(x, y))
+    return not all(abs(p[0] - q[0]) <= tol and abs(p[1] - q[1]) <= tol for x, y in zip(a, b) for p, q in zip(x, y))
+
+
+def nonfinite(x):
+    """number of NaN / inf samples in the arrays of an object or in an ndarray"""
+    k = 0
+    for a in _arrays(x):
+        if a.dtype.kind in "fc":
+            k += int(a.size - np.count_nonzero(np.isfinite(a)))
+    return k
 
 
 def _rows(a):
@@ -418,6 +431,17 @@ class Eval:
         if len(self.viol) < 20:
             self.viol.append((sig, msg[:400]))
 
+    def finite(self, r, operands, what):
+        """finite operands give finite results (magnitudes are bounded by construction): a NaN / inf sample is neither
+        the sum/difference of the operands' fields nor one of the selected samples"""
+        try:
+            k = nonfinite(r)
+        except Exception:  # noqa
+            return
+        if k and not any(nonfinite(o) for o in operands if o is not None):
+            self.v(f"C01:non-finite:{what}", f"{type(r).__name__} result of {what} holds {k} NaN/inf sample(s) although "
+                   f"every operand is finite")
+
     # --- constructor -------------------------------------------------------------------------
     def ctor(self, c):
         cls = self.E if c["cls"] == "E" else self.O
@@ -442,6 +466,8 @@ class Eval:
                        f"{name}({c['sig']['form']} {shape_of(c['sig'])}, noise={None if c['noise'] is None else shape_of(c['noise'])}, "
                        f"n_pol={c['npol']}, dtype={c['dtype']}) raised {e!r}")
             raise
+        self.finite(x, [sraw if isinstance(sraw, np.ndarray) else None, nraw if isinstance(nraw, np.ndarray) else None],
+                    f"ctor:{c['cls']}")
         if exp is None:
             self.v(f"C01:ctor-accepts-invalid:{c['cls']}",
                    f"{name}(signal {shape_of(c['sig'])}, noise {None if c['noise'] is None else shape_of(c['noise'])}) "
@@ -522,6 +548,7 @@ class Eval:
                     self.feat.add("rejected-length-mismatch")
             raise
         self.okops += 1
+        self.finite(r, [a, other if braw is not None and isinstance(braw, np.ndarray) else b], op)
         if not demanded:
             return r
         if la != lb and lb != 1:
@@ -600,6 +627,7 @@ class Eval:
     def _after_getitem(self, a, sa, g, r, idx, desc, what):
         name = type(a).__name__
         self.okops += 1
+        self.finite(r, [a], what)
         if not idx:
             self.v(f"C01:{what}-empty-accepted", f"{desc} selects no sample but returned an object with signal shape "
                    f"{getattr(getattr(r, 'signal', None), 'shape', None)}")
@@ -644,6 +672,7 @@ class Eval:
                 self.v(f"C01:transform-raises:{dom}", f"{name}('{dom}', {shift}) raised {e!r}")
             raise
         self.okops += 1
+        self.finite(r, [a], f"transform:{dom}")
         if dom not in ("w", "f", "t"):
             self.v("C01:transform-bad-domain-accepted", f"{name}('{dom}') did not raise")
             return r
@@ -675,6 +704,7 @@ class Eval:
             except Exception as e:  # noqa
                 self.v(f"C01:transform-raises:{dom}", f"{name}('{dom}') raised {e!r}")
                 continue
+            self.finite(y, [x], f"transform:{dom}")
             bad = contract(y, name)
             for m in bad:
                 self.v(f"C01:transform-contract:{dom}", f"{name}('{dom}'): {m}")
@@ -1227,9 +1257,11 @@ def compare_float(case, res, reply):
         if [len(r) for r in a] != [len(r) for r in b]:
             out.append(f"{part} shape: model {[len(r) for r in a]}, implementation {[len(r) for r in b]}")
             continue
-        worst = max((max(abs(p[0] - q[0]), abs(p[1] - q[1])) for x, y in zip(a, b) for p, q in zip(x, y)), default=0.0)
-        if not worst <= tol:
-            out.append(f"{part} values differ by {worst:.3e} > {tol:.3e}")
+        errs = [max(abs(p[0] - q[0]), abs(p[1] - q[1])) for x, y in zip(a, b) for p, q in zip(x, y)]
+        # `not (e <= tol)`: a NaN / inf on either side is a disagreement, whatever its position in the row
+        badv = [e for e in errs if not (e <= tol)]
+        if badv:
+            out.append(f"{part}: {len(badv)} value(s) differ by more than {tol:.3e} (first error {badv[0]!r})")
     return out
 
 
